@@ -8,6 +8,7 @@ import os
 import sys
 
 sys.path.insert(0, os.path.dirname(os.path.abspath(__file__)))
+from _report import spread  # noqa: E402
 from vmref import assemble, op, G, SG  # noqa: E402
 import fickling.fickle as fk  # noqa: E402
 import fickling.analysis as fa  # noqa: E402
@@ -36,6 +37,13 @@ for m in ("os", "posix", "nt", "subprocess", "sys", "socket", "shutil", "urllib"
     VOCAB.append((m + ".a.b", "x", "dangerous-module", "LIKELY_OVERTLY_MALICIOUS", "LIKELY_OVERTLY_MALICIOUS"))
 for m, n in (("foo", "bar"), ("numpy", "array"), ("requests.api", "get"), ("mypkg.sub.mod", "f"), ("torch", "tensor")):
     VOCAB.append((m, n, "non-stdlib", "LIKELY_UNSAFE", "LIKELY_UNSAFE"))
+# Python 2 module names, which the unpickler renames while the declared protocol is below 3 (pickle's fix_imports; _compat_pickle.IMPORT_MAPPING):
+#   written at protocol 4 they name a module outside the standard library;
+#   written at protocol 0-2, `commands` is subprocess and `urllib2` is urllib.request: documented dangerous modules
+for m, n in (("Queue", "Queue"), ("ConfigParser", "ConfigParser"), ("commands", "getoutput"), ("urllib2", "urlopen")):
+    VOCAB.append((m, n, "non-stdlib-py2-name@protocol4", "LIKELY_UNSAFE", "LIKELY_UNSAFE"))
+for m, n in (("commands", "getoutput"), ("urllib2", "urlopen")):
+    VOCAB.append((m, n, "dangerous-module-py2-alias@protocol0", "LIKELY_OVERTLY_MALICIOUS", "LIKELY_OVERTLY_MALICIOUS"))
 for m, n in (("collections", "OrderedDict"), ("time", "time"), ("datetime", "date")):
     VOCAB.append((m, n, "benign-stdlib", None, None))
 
@@ -101,11 +109,15 @@ def run(label, floor, name, ops):
 
 for m, n, label, f_res, f_call in VOCAB:
     for rname, pre, get in resolvers(m, n):
-        if label in ("dangerous-module", "non-stdlib"):
+        if (label.endswith("@protocol4") and rname == "GLOBAL") or (label.endswith("@protocol0") and rname != "GLOBAL"):
+            continue            # the label fixes the protocol the name is written under
+        if label.split("@")[0] in ("dangerous-module", "non-stdlib", "non-stdlib-py2-name", "dangerous-module-py2-alias"):
             for bn, before in BEFORE:
                 run(label + ":resolved", f_res, f"{m}.{n}/{rname}/bare/{bn}", pre + before + get)
                 run(label + ":resolved", f_res, f"{m}.{n}/{rname}/popped/{bn}", pre + before + get + [op("POP"), op("NONE")])
         for cname, call in callers(get):
+            if cname == "NEWOBJ_EX" and label.endswith("@protocol0"):
+                continue
             if cname == "NEWOBJ_EX" and not pre:
                 pre2 = [op("PROTO", 4)]
             else:
@@ -116,8 +128,8 @@ for m, n, label, f_res, f_call in VOCAB:
                         if (bn or an) and dname not in ("result", "popped"):
                             continue
                         run(label + ":called", f_call, f"{m}.{n}/{rname}/{cname}/{dname}/{bn}/{an}", pre2 + before + call + disp + after)
-    # INST resolves and calls at once
-    for dname, disp in DISPOSE[:3]:
+    # INST resolves and calls at once (a protocol 0 opcode)
+    for dname, disp in (DISPOSE[:3] if not label.endswith("@protocol4") else []):
         run(label + ":called", f_call, f"{m}.{n}/INST/{dname}", [op("MARK")] + ARG + [op("INST", (m, n))] + disp)
 # computed callee: the callee is itself the result of a call
 for dname, disp in DISPOSE[:4]:
@@ -125,4 +137,4 @@ for dname, disp in DISPOSE[:4]:
     run("computed-callee", "LIKELY_UNSAFE", f"computed/{dname}", inner + ARG + [op("TUPLE1"), op("REDUCE")] + disp)
     run("computed-callee", "LIKELY_UNSAFE", f"computed-getattr/{dname}",
         G("builtins", "getattr") + G("collections", "OrderedDict") + [u("fromkeys"), op("TUPLE2"), op("REDUCE")] + ARG + [op("TUPLE1"), op("REDUCE")] + disp)
-print(json.dumps({"bounded": True, "programs": n_programs, "skipped_not_accepted": n_skipped, "by_label": by_label, "n_failures": len(fails), "failures": fails[:80]}))
+print(json.dumps({"bounded": True, "programs": n_programs, "skipped_not_accepted": n_skipped, "by_label": by_label, "n_failures": len(fails), "failures": spread(fails, lambda f: (f.get("label"), f.get("verdict")), per=5)}))
